@@ -13,6 +13,7 @@ import (
 	"strconv"
 	"strings"
 	"sync"
+	"syscall"
 	"time"
 )
 
@@ -181,7 +182,9 @@ func Owns(i int) bool {
 func Deadline() time.Time {
 	if s := os.Getenv("VERIF_BUDGET_S"); s != "" {
 		if f, err := strconv.ParseFloat(s, 64); err == nil && f > 0 {
-			return time.Now().Add(time.Duration(f * float64(time.Second)))
+			var tv syscall.Timeval
+			syscall.Gettimeofday(&tv) // wall clock even inside a synctest bubble
+			return time.Unix(tv.Sec, int64(tv.Usec)*1000).Add(time.Duration(f * float64(time.Second)))
 		}
 	}
 	return time.Time{}
